@@ -66,11 +66,13 @@ func DrawScenario(t *Tape, property string) (*Scenario, Config) {
 	}
 	sc.RolloutID = t.Next(3) == 1
 	// traffic routing
-	switch t.Pick(3, 2, 2) {
+	switch t.Pick(3, 2, 2, 2) {
 	case 1:
 		sc.Traffic = "ingress-nginx"
 	case 2:
 		sc.Traffic = "gateway"
+	case 3:
+		sc.Traffic = "istio"
 	}
 	if sc.Traffic != "" {
 		sc.GraceSec = []int{0, 1, 3, 5}[t.Next(4)]
@@ -151,7 +153,7 @@ func applyProfile(t *Tape, property string, sc *Scenario, cfg *Config) {
 		}
 	case "C10", "C04":
 		if sc.Traffic == "" {
-			sc.Traffic = []string{"ingress-nginx", "gateway"}[t.Next(2)]
+			sc.Traffic = []string{"ingress-nginx", "gateway", "istio"}[t.Next(3)]
 			sc.GraceSec = []int{0, 1, 3, 5}[t.Next(4)]
 			for i := range sc.Steps {
 				if t.Next(3) != 0 && !(sc.Family != "deploy-canary" && pctOver(sc.Steps[i].Replicas, 50)) {
